@@ -278,13 +278,13 @@ def _layer_invariant(K, be, cache, present, cur_mem, cur_val, tag):
 
 @obligation(
     "C05.cache_layer_step",
-    covers=("served-from-cache", "cache-filled-from-store", "oversize", "forgotten"),
+    covers=("served-from-cache", "cache-filled-from-store", "oversize", "forgotten", "new-result-cannot-be-weakly-referenced"),
     split={"op": list(range(len(LAYER_OPS))), "t": [0, 1]},
     tier_split={"thorough": {"op": list(range(len(LAYER_OPS))), "t": [0, 1, 2], "st0": list(range(7))}},
     tier_args={"quick": {"K": 2}, "thorough": {"K": 3}},
     bounds="INDUCTIVE STEP: StorageBackendBase with a real MemoryCache over an exact dictionary store, K = 2 calls (f#1/h1, f#1/h2; thorough K = 3 with f#10/h1); "
            "ARBITRARY pre-state: presence bits of the store; resident / has-value / weak-ref bits of the cache consistent with it; sizes, "
-           "budget and the new result's size unbounded non-negative ints; one operation (memoize, get_mementos, read_result, is_memoized, "
+           "budget and the new result's size unbounded non-negative ints; the new result weakly referenceable or not; one operation (memoize, get_mementos, read_result, is_memoized, "
            "is_all_memoized, forget_call, forget_function, forget_everything) on call t: the answer equals the dictionary's, the "
            "representation invariant (C06 accounting + every resident memento / value / weak ref is the store's current one, resident and "
            "weakly referenced calls are stored calls) holds again, and every read-only query afterwards equals the dictionary's",
@@ -293,7 +293,8 @@ def _layer_invariant(K, be, cache, present, cur_mem, cur_val, tag):
     budget_s={"quick": 300, "thorough": 1500},
     data_vars=5, choice_vars=4,
 )
-def cache_layer_step(op: int, t: int, st0: int, st1: int, st2: int, s0: int, s1: int, s2: int, budget: int, ns: int, u: int, K: int):
+def cache_layer_step(op: int, t: int, st0: int, st1: int, st2: int, s0: int, s1: int, s2: int, budget: int, ns: int, u: int, K: int,
+                     plain_value: bool):
     # per call one of 7 consistent states (no assumption-discarded paths):
     # 0 absent | 1 stored | 2 stored + weak ref | 3 resident memento-only | 4 same + weak ref | 5 resident with value | 6 same + weak ref
     sts = [pick(x, 7) for x in (st0, st1, st2)[:K]] + [0] * (3 - K)
@@ -313,7 +314,12 @@ def cache_layer_step(op: int, t: int, st0: int, st1: int, st2: int, s0: int, s1:
     present = list(p)
     cur_mem = list(mems)
     cur_val = list(vals)
-    newval = fx.Val("new")
+    # the new result: an object that can be weakly referenced, or a plain str (ints, strs, dicts cannot)
+    if name == "memoize" and plain_value:
+        cover("new-result-cannot-be-weakly-referenced")
+        newval = "new-plain-value-%d" % t
+    else:
+        newval = fx.Val("new")
     sizes = {id(newval): ns}
 
     def size_of(obj):
